@@ -204,6 +204,14 @@ fn tables() -> Verdict {
     if BigInt::ZERO.sign() != Sign::NoSign || !BigInt::zero().is_zero() || !BigUint::one().is_one() || !BigInt::one().is_one() {
         return Err("constants: wrong sign/is_zero/is_one".into());
     }
+    // From<bool>
+    eq_bu(&BigUint::from(false), &z.mag)?;
+    eq_bu(&BigUint::from(true), &o.mag)?;
+    eq_bi(&BigInt::from(false), &z)?;
+    eq_bi(&BigInt::from(true), &o)?;
+    if BigInt::from(true).sign() != Sign::Plus || BigInt::from(false).sign() != Sign::NoSign {
+        return Err("From<bool>: wrong sign".into());
+    }
     match 5u8.to_biguint() {
         Some(v) => eq_bu(&v, &Nat::from_u64(5))?,
         None => return Err("5u8.to_biguint() is None".into()),
